@@ -1,0 +1,33 @@
+// Copyright 2026 Dolthub, Inc.
+//
+// Licensed under the Apache License, Version 2.0 (the "License");
+// you may not use this file except in compliance with the License.
+// You may obtain a copy of the License at
+//
+//     http://www.apache.org/licenses/LICENSE-2.0
+//
+// Unless required by applicable law or agreed to in writing, software
+// distributed under the License is distributed on an "AS IS" BASIS,
+// WITHOUT WARRANTIES OR CONDITIONS OF ANY KIND, either express or implied.
+// See the License for the specific language governing permissions and
+// limitations under the License.
+
+//go:build verif
+
+package blobstore
+
+// Property-level lemmas (ghost code). Each is verified from the contracts of the functions it calls.
+
+func verif_lemma_inmem_range(val []byte, br BlobRange) {
+	posBR := br.positiveRange(int64(len(val)))
+	var byteRange []byte
+	if posBR.length == 0 {
+		byteRange = val[posBR.offset:]
+	} else {
+		byteRange = val[posBR.offset : posBR.offset+posBR.length]
+	}
+	start := verif_range_start(br, int64(len(val)))
+	end := verif_range_end(br, int64(len(val)))
+	verif_assert(int64(len(byteRange)) == end-start)
+	verif_assert(verif_forall(0, len(byteRange), func(i int) bool { return byteRange[i] == val[int(start)+i] }))
+}
